@@ -28,6 +28,19 @@ Fixpoint seq_assign_known (ms : list (bool * ety)) (es : list elt) : bool :=
   | _, _ => false
   end.
 
+Definition ety_assign (t t' : ety) : bool :=
+  match t, t' with
+  | TAnyE, _ => true
+  | _, TAnyE => true
+  | TNoneE, TNoneE => true
+  | TBoolE, TBoolE => true
+  | TIntE, TIntE => true
+  | TIntE, TBoolE => true
+  | TStrE, TStrE => true
+  | _, _ => false
+  end.
+
+(* the class a value is nominally an instance of, for TypeObject.can_assign *)
 Definition assignable (p v : bval) : bool :=
   match p with
   | VAny => true
@@ -44,6 +57,7 @@ Definition assignable (p v : bval) : bool :=
       | VTyped c' => sub_art c' c
       | VSub c' => sub_art (meta c') c
       | VTuple _ => sub_art CTuple c
+      | VGen g => sub_art (gen_cls g) c
       end
   | VSub c =>
       match v with
@@ -53,12 +67,46 @@ Definition assignable (p v : bval) : bool :=
       | VTyped c' => cls_eqb c' CType || (sub c' CType && isinst (OClass c) c')   (* plain type, or a metaclass of c *)
       | VSub c' => sub_art c' c
       | VTuple _ => false
+      | VGen _ => false
       end
   | VTuple ms =>
       match v with
       | VAny => true
       | VKnown (OTuple es) => seq_assign_known ms es
       | _ => false   (* tuple patterns against non-literals are outside the fragment *)
+      end
+  | VGen GSeqPat =>   (* TypedValue(Sequence).can_assign + the Exclude[str | bytes | bytearray] check *)
+      match v with
+      | VAny => true
+      | VKnown o => sub_art (class_of o) CSequence && negb (sub_art (class_of o) CStr)
+      | VTyped c => sub_art c CSequence && negb (sub_art c CStr)
+      | VSub _ => false
+      | VTuple _ => true
+      | VGen g => sub_art (gen_cls g) CSequence
+      end
+  | VGen GMapPat =>
+      match v with
+      | VAny => true
+      | VKnown o => sub_art (class_of o) CMapping
+      | VTyped c => sub_art c CMapping
+      | VGen g => sub_art (gen_cls g) CMapping
+      | _ => false
+      end
+  | VGen (GList t) =>
+      match v with
+      | VAny => true
+      | VKnown (OList es) => forallb (fun e => elt_member e t) es
+      | VTyped c => sub_art c CList
+      | VGen (GList t') => ety_assign t t'
+      | _ => false
+      end
+  | VGen (GDict k w) =>
+      match v with
+      | VAny => true
+      | VKnown (ODict kvs) => forallb (fun kv => elt_member (fst kv) k && elt_member (snd kv) w) kvs
+      | VTyped c => sub_art c CDict
+      | VGen (GDict k' w') => ety_assign k k' && ety_assign w w'
+      | _ => false
       end
   end.
 
@@ -71,6 +119,7 @@ Definition deliteral (b : bval) : bval :=
   match b with
   | VKnown o => VTyped (class_of o)
   | VTuple _ => VTyped CTuple
+  | VGen GSeqPat => VTyped CSequence   (* unannotate *)
   | _ => b
   end.
 
@@ -124,9 +173,12 @@ Definition boolab_of_b (b : bval) : boolab :=
       match o with
       | OTuple es => match es with [] => value_always_false | _ => type_always_true end
       | OClass c => known_boolab (meta_boolab c) true
+      | OList es => match es with [] => value_always_false_mutable | _ => value_always_true_mutable end
+      | ODict kvs => match kvs with [] => value_always_false_mutable | _ => value_always_true_mutable end
       | _ => known_boolab (type_boolab_exact (class_of o)) (truthy o)
       end
   | VTyped c => type_boolab c
+  | VGen g => type_boolab (gen_cls g)
   end.
 
 Definition min_boolab (a b : boolab) : boolab :=
@@ -169,6 +221,7 @@ Inductive pred :=
 | PEquals (l : obj) (use_is : bool)
 | PIn (ls : list obj)
 | PLenCmp (op : cmpop) (n : Z)
+| PLenPat (n : nat) (has_star : bool)     (* patma.LenPredicate *)
 | PAlways.
 
 Definition pred_isassignable (pat : list bval) (positive_only : bool) (s : sval) (positive : bool)
@@ -235,6 +288,8 @@ Definition pred_in (ls : list obj) (s : sval) (positive : bool) : list sval :=
 Definition len_of_value (s : sval) : option Z :=
   match s with
   | SV (VTuple ms) [] => if existsb fst ms then None else Some (Z.of_nat (length ms))
+  | SV (VKnown (OList _)) [] => None    (* KNOWN_MUTABLE_TYPES *)
+  | SV (VKnown (ODict _)) [] => None
   | SV (VKnown o) [] => option_map Z.of_nat (len_of o)
   | _ => None
   end.
@@ -271,12 +326,42 @@ Definition pred_lencmp (op : cmpop) (n : Z) (s : sval) (positive : bool) : list 
   | None => [len_transform s op' n]
   end.
 
+(* the generic argument of a tuple-typed value (get_generic_arg_for_type(tuple, ctx, 0)):
+   Any for a bare tuple, the common member type of a SequenceValue; a union of different
+   member types cannot be written in this fragment (the harness decoder rejects it) *)
+Definition ety_eqb (a b : ety) : bool :=
+  match a, b with
+  | TAnyE, TAnyE | TNoneE, TNoneE | TBoolE, TBoolE | TIntE, TIntE | TStrE, TStrE => true
+  | _, _ => false
+  end.
+Definition tuple_arg (b : bval) : ety :=
+  match b with
+  | VTuple ((_, t) :: ms) => if forallb (fun m => ety_eqb (snd m) t) ms then t else TAnyE
+  | _ => TAnyE
+  end.
+Definition tuple_typed (b : bval) : bool :=
+  match b with VTyped CTuple => true | VTuple _ => true | _ => false end.
+
+(* patma.LenPredicate (after the C02 repair: the exact-length narrowing of a tuple of unknown
+   length only in the positive branch) *)
+Definition pred_lenpat (n : nat) (has_star : bool) (s : sval) (positive : bool) : list sval :=
+  match len_of_value s with
+  | Some k =>
+      let m := if has_star then Z.leb (Z.of_nat n) k else Z.eqb k (Z.of_nat n) in
+      if Bool.eqb m positive then [s] else []
+  | None =>
+      if positive && negb has_star && tuple_typed (sbase s)
+      then [plain (VTuple (repeat (false, tuple_arg (sbase s)) n))]
+      else [s]
+  end.
+
 Definition apply_pred (p : pred) (s : sval) (positive : bool) : list sval :=
   match p with
   | PIsAssignable pat po => pred_isassignable pat po s positive
   | PEquals l use_is => pred_equals l use_is s positive
   | PIn ls => pred_in ls s positive
   | PLenCmp op n => pred_lencmp op n s positive
+  | PLenPat n star => pred_lenpat n star s positive
   | PAlways => if positive then [s] else []
   end.
 
@@ -360,6 +445,28 @@ Definition constrain (v : value) (a : acon) : value := apply_all (apply_acon a) 
 (* ------------------------------------------------------------------ *)
 (* conditions *)
 
+(* subpatterns on the elements of a sequence / the values of a mapping *)
+Inductive epat := EWild | ELit (e : elt) | EClass (t : ety).
+Definition epat_match (p : epat) (e : elt) : bool :=
+  match p with
+  | EWild => true
+  | ELit l => elt_py_eq e l
+  | EClass t => elt_member e t
+  end.
+Fixpoint epats_match (ps : list epat) (es : list elt) : bool :=
+  match ps, es with
+  | [], _ => true
+  | p :: ps', e :: es' => epat_match p e && epats_match ps' es'
+  | _ :: _, [] => false
+  end.
+Fixpoint lookup_elt (k : elt) (kvs : list (elt * elt)) : option elt :=
+  match kvs with
+  | [] => None
+  | (k', v) :: r => if elt_py_eq k' k then Some v else lookup_elt k r
+  end.
+Definition seq_elems (o : obj) : option (list elt) :=
+  match o with OTuple es => Some es | OList es => Some es | _ => None end.
+
 Inductive cond :=
 | CTruthy                                   (* if x *)
 | CIsInstance (cs : list cls)               (* isinstance(x, (c1, ...)) *)
@@ -373,9 +480,28 @@ Inductive cond :=
 | CMatchClass (c : cls)                     (* case c(): *)
 | CAlways                                   (* case _: *)
 | COpaque (b : bool)                        (* a condition that says nothing about x (value b at run time) *)
+| CSeqIs (po : bool)                        (* sequence pattern, part 1: x is a Sequence that is not str/bytes *)
+| CSeqLen (n : nat) (has_star : bool)       (* sequence pattern, part 2: number of subpatterns *)
+| CElems (pre : list epat) (has_star : bool) (post : list epat)
+                                            (* sequence pattern, part 3: the subpatterns (constraints on the
+                                               elements, none on x) *)
+| CMapIs (po : bool)                        (* mapping pattern, part 1: x is a Mapping *)
+| CMapKeys (kps : list (elt * epat))        (* mapping pattern, part 2: keys present and value subpatterns *)
+| CPAnd (a b : cond)                        (* conjunction of the parts of one pattern (in source order) *)
 | CNot (c : cond)
 | CAnd (a b : cond)
 | COr (a b : cond).
+
+(* patma.visit_MatchSequence: `case [p1, ..., *rest, ..., qm]` is the conjunction of
+   IsAssignablePredicate(MatchableSequence, positive_only = len(patterns) > 1 or no star),
+   LenPredicate(number of non-star subpatterns, has_star) and the subpattern constraints *)
+Definition match_seq (pre : list epat) (star : bool) (post : list epat) : cond :=
+  let n := length pre + length post in
+  let po := orb (Nat.ltb 1 (n + (if star then 1 else 0))) (negb star) in
+  CPAnd (CSeqIs po) (CPAnd (CSeqLen n star) (CElems pre star post)).
+(* patma.visit_MatchMapping: positive_only = len(keys) > 0 *)
+Definition match_map (kps : list (elt * epat)) : cond :=
+  CPAnd (CMapIs (negb (Nat.eqb (length kps) 0))) (CMapKeys kps).
 
 Fixpoint cond_acon (c : cond) : acon :=
   match c with
@@ -391,6 +517,12 @@ Fixpoint cond_acon (c : cond) : acon :=
   | CMatchClass c => ALeaf (KPred (PIsAssignable [VTyped c] true) true)
   | CAlways => ALeaf (KPred PAlways true)
   | COpaque _ => ANull
+  | CSeqIs po => ALeaf (KPred (PIsAssignable [VGen GSeqPat] po) true)
+  | CSeqLen n star => ALeaf (KPred (PLenPat n star) true)
+  | CElems _ _ _ => ANull
+  | CMapIs po => ALeaf (KPred (PIsAssignable [VGen GMapPat] po) true)
+  | CMapKeys _ => ANull
+  | CPAnd a b => AAnd (cond_acon a) (cond_acon b)
   | CNot c => invert (cond_acon c)
   | CAnd a b => AAnd (cond_acon b) (cond_acon a)   (* AndConstraint.make(reversed(...)) *)
   | COr a b => AOr (cond_acon a) (cond_acon b)
@@ -414,6 +546,12 @@ Fixpoint tested (c : cond) : value :=
   | CMatchClass c => [plain (VTyped c)]
   | CAlways => []
   | COpaque _ => []
+  | CSeqIs _ => [plain (VGen GSeqPat)]
+  | CSeqLen _ _ => [plain (VTyped CTuple)]   (* LenPredicate narrows tuple-typed values to tuples *)
+  | CElems _ _ _ => []
+  | CMapIs _ => [plain (VGen GMapPat)]
+  | CMapKeys _ => []
+  | CPAnd a b => tested a ++ tested b
   | CNot c => tested c
   | CAnd a b => tested a ++ tested b
   | COr a b => tested a ++ tested b
@@ -444,6 +582,30 @@ Fixpoint holds (c : cond) (o : obj) : option bool :=
   | CMatchClass c => Some (isinst o c)
   | CAlways => Some true
   | COpaque b => Some b
+  | CSeqIs _ => Some (match seq_elems o with Some _ => true | None => false end)
+  | CSeqLen n star =>
+      match len_of o with
+      | Some k => Some (if star then Nat.leb n k else Nat.eqb k n)
+      | None => None
+      end
+  | CElems pre star post =>
+      match seq_elems o with
+      | Some es => Some (epats_match pre es && epats_match (rev post) (rev es))
+      | None => Some false
+      end
+  | CMapIs _ => Some (match o with ODict _ => true | _ => false end)
+  | CMapKeys kps =>
+      match o with
+      | ODict kvs => Some (forallb (fun kp => match lookup_elt (fst kp) kvs with
+                                               | Some v => epat_match (snd kp) v
+                                               | None => false end) kps)
+      | _ => Some false
+      end
+  | CPAnd a b =>
+      match holds a o with
+      | Some true => holds b o
+      | r => r
+      end
   | CNot c => option_map negb (holds c o)
   | CAnd a b =>
       match holds a o with
